@@ -249,3 +249,40 @@ PROPS["C07"] = pbt(
             "read_quoted": 0.08, "comments": 0.15, "d_space": 0.25, "d_eq": 0.25, "d_colon": 0.25, "c_hash": 0.40,
             "c_semicolon": 0.40},
 )
+
+PROPS["C11"] = pbt(
+    "pbt_c11", "pbt_c11.cpp",
+    rule=("model-based (stateful) runs of up to 60 commands from five start states (econf_newKeyFile, econf_newIniFile, "
+          "econf_newKeyFile_with_options, a parsed conventional file, a merge result); commands: string/int/uint/bool "
+          "setters, string/int getters, string/int defaulted getters, section and key listings, refused calls (no "
+          "object, NULL/empty key), over sections {NULL,'',A,[A],B,[B],'Sec C','[Sec C]'} x 8 keys; a reference ordered "
+          "map runs in parallel and every return code and out-value is compared after every step, the full listing at "
+          "intervals and at the end. evaluations = commands; non-trivial = run creates >8 entries, overwrites a key, "
+          "or uses both spellings of one section; distinct = hash of the command/section sequence"),
+    technique="stateful (model-based) property testing against a reference ordered map, rapidcheck",
+    level_text=("model-based testing of call histories: 40k (quick) / 1.5M (thorough) runs, ~1M / 40M commands; the "
+                "model is the ordered map of DESIGN 6.1."),
+    level_note="int getter results are only compared for plain decimal literals (conversions are C09's subject)",
+    quick={"cases": 40000},
+    thorough={"cases": 1500000},
+    floors={"grew_past_8_entries": 0.15, "overwrote_key": 0.20, "both_section_spellings": 0.20,
+            "start_parsed file": 0.15, "start_merge result": 0.08},
+)
+
+PROPS["C10"] = pbt(
+    "pbt_c10", "pbt_c10.cpp",
+    rule=("an object (parsed conventional file with bare keys plus lines carrying tempting values - mixed-case boolean "
+          "words, numbers in three bases, junk; or built by setters; or a merge result) and 1-40 read-only calls: all 8 "
+          "typed getters, all 8 defaulted getters, the extended getter, both listings, path and tag queries, "
+          "econf_writeFile, use as base or as override of econf_mergeFiles (result queried and freed), on existing and "
+          "missing keys with plain and bracketed section names. Oracle: byte-exact full dump (listing, string values "
+          "with NULL kept apart from '', every extended-value field, tags, path, bytes of a written file) before = "
+          "after; same for the merge partner. evaluations = queries; non-trivial = the sequence contains a failing "
+          "getter, a boolean getter on text with an upper-case letter, or a merge; distinct = hash of the query sequence"),
+    technique="property-based testing of read-only call sequences with a before/after dump invariant, rapidcheck",
+    level_text="generated search over objects and query sequences with a state-invariance oracle; 60k (quick) / 2M (thorough) objects, ~20 queries each.",
+    level_note="the dump is taken through the public API and the writer only",
+    quick={"cases": 60000},
+    thorough={"cases": 2000000},
+    floors={"failing_getter": 0.20, "bool_getter_on_mixed_case": 0.15, "used_in_merge": 0.20, "key_without_value": 0.10},
+)
